@@ -42,6 +42,13 @@ D_SigFileContract == <<115, 105, 97, 47, 115, 105, 103, 47, 102, 105, 108, 101, 
 D_SigRenewal == <<115, 105, 97, 47, 115, 105, 103, 47, 102, 105, 108, 101, 99, 111, 110, 116, 114, 97, 99, 116, 114, 101, 110, 101, 119, 97, 108, 124>>   \* "sia/sig/filecontractrenewal|"
 D_SigAttestation == <<115, 105, 97, 47, 115, 105, 103, 47, 97, 116, 116, 101, 115, 116, 97, 116, 105, 111, 110, 124>>   \* "sia/sig/attestation|"
 D_Commitment == <<115, 105, 97, 47, 99, 111, 109, 109, 105, 116, 109, 101, 110, 116, 124>>   \* "sia/commitment|"
+D_Address == <<115, 105, 97, 47, 97, 100, 100, 114, 101, 115, 115, 124>>   \* "sia/address|"
+D_LeafChainIndex == <<115, 105, 97, 47, 108, 101, 97, 102, 47, 99, 104, 97, 105, 110, 105, 110, 100, 101, 120, 124>>   \* "sia/leaf/chainindex|"
+D_LeafSiacoin == <<115, 105, 97, 47, 108, 101, 97, 102, 47, 115, 105, 97, 99, 111, 105, 110, 124>>   \* "sia/leaf/siacoin|"
+D_LeafSiafund == <<115, 105, 97, 47, 108, 101, 97, 102, 47, 115, 105, 97, 102, 117, 110, 100, 124>>   \* "sia/leaf/siafund|"
+D_LeafFileContract == <<115, 105, 97, 47, 108, 101, 97, 102, 47, 102, 105, 108, 101, 99, 111, 110, 116, 114, 97, 99, 116, 124>>   \* "sia/leaf/filecontract|"
+D_LeafV2FileContract == <<115, 105, 97, 47, 108, 101, 97, 102, 47, 118, 50, 102, 105, 108, 101, 99, 111, 110, 116, 114, 97, 99, 116, 124>>   \* "sia/leaf/v2filecontract|"
+D_LeafAttestation == <<115, 105, 97, 47, 108, 101, 97, 102, 47, 97, 116, 116, 101, 115, 116, 97, 116, 105, 111, 110, 124>>   \* "sia/leaf/attestation|"
 \* v1 specifiers: 16 bytes, the text padded with zeros
 S_SiacoinOutput == <<115, 105, 97, 99, 111, 105, 110, 32, 111, 117, 116, 112, 117, 116, 0, 0>>   \* "siacoin output"
 S_SiafundOutput == <<115, 105, 97, 102, 117, 110, 100, 32, 111, 117, 116, 112, 117, 116, 0, 0>>   \* "siafund output"
@@ -140,6 +147,30 @@ V2Commitment(s, miner, txns, v2txns) ==
 \* b is a block under line V2Block (V2 = <<>> for a v1 block); a v2 block carries its commitment
 PreBlockID(b) == b.ParentID \o LE64(b.Nonce) \o LE64(b.Timestamp) \o (IF b.V2 = <<>> THEN V1Commitment(b) ELSE b.V2[1].Commitment)
 
+\* ---- addresses and element hashes (entry points of SemanticsPure: every hash function shares the pools) ---------
+\* the address of unlock conditions: Merkle root over the timelock, each key, the number of signatures required
+UnlockHash(uc) == Root(<<Leaf(LE64(uc.Timelock))>> \o [i \in 1..Len(uc.PublicKeys) |-> Leaf(Lay("UnlockKey", uc.PublicKeys[i]))] \o
+                       <<Leaf(LE64(uc.SignaturesRequired))>>)
+\* the address of a policy with root node nd (a 32-byte value): unlock conditions keep their v1 address; a threshold
+\* is hashed with every sub-policy replaced by the opaque node of its address (version 1, opcode 5, n, one-byte
+\* count, then opcode 6 and the address per sub-policy: the layout of WireTypes!PolicyNode); anything else as laid out
+RECURSIVE NodeAddress(_)
+NodeAddress(nd) ==
+  CASE nd.tag = "PolicyTypeUnlockConditions" -> UnlockHash(nd.v)
+    [] nd.tag = "PolicyTypeThreshold" ->
+         HashOf(D_Address \o <<1, 5, nd.v.N, Len(nd.v.Of)>> \o
+                Cat([i \in 1..Len(nd.v.Of) |-> <<6>> \o (IF nd.v.Of[i].Type.tag = "PolicyTypeOpaque" THEN nd.v.Of[i].Type.v
+                                                          ELSE NodeAddress(nd.v.Of[i].Type))]))
+    [] OTHER -> HashOf(D_Address \o Lay("SpendPolicy", [Type |-> nd]))
+\* the hash of an element's contents in the accumulator: purpose, identifier, contents
+PreElementHash(t) ==
+  CASE t.el = "chainindex" -> D_LeafChainIndex \o t.id \o Lay("ChainIndex", t.v)
+    [] t.el = "siacoin" -> D_LeafSiacoin \o t.id \o Lay("V2SiacoinOutput", t.v) \o LE64(t.x)
+    [] t.el = "siafund" -> D_LeafSiafund \o t.id \o Lay("V2SiafundOutput", t.v) \o Enc(CurV2, t.x)
+    [] t.el = "filecontract" -> D_LeafFileContract \o t.id \o Lay("FileContract", t.v)
+    [] t.el = "v2filecontract" -> D_LeafV2FileContract \o t.id \o Lay("V2FileContract", t.v)
+    [] t.el = "attestation" -> D_LeafAttestation \o t.id \o Lay("Attestation", t.v)
+
 \* ---- one logged request -> the value the protocol prescribes (a term of 32 bytes) -------------
 Value(t) ==
   CASE t.kind = "v1txid" -> HashOf(PreV1TxnID(t.v))
@@ -175,5 +206,7 @@ Value(t) ==
     [] t.kind = "v1commitment" -> V1Commitment(t.v)
     [] t.kind = "commitmentleaf" -> HashOf(PreCommitmentLeaf(t.s, t.id))
     [] t.kind = "v2commitment" -> V2Commitment(t.s, t.id, t.txns, t.v2txns)
+    [] t.kind = "address" -> NodeAddress(t.v.Type)
+    [] t.kind = "elementhash" -> HashOf(PreElementHash(t))
     [] OTHER -> <<"unknown kind">>
 =============================================================================
